@@ -3,6 +3,7 @@ package tls
 import (
 	"errors"
 	"fmt"
+	"io"
 
 	"github.com/refraction-networking/utls/internal/tls13"
 )
@@ -223,9 +224,13 @@ func (s *sessionController) shouldUpdateBinders() bool {
 	return (s.state == PskExtInitialized || s.state == PskExtAllSet)
 }
 
-func (s *sessionController) updateBinders() {
+func (s *sessionController) updateBinders() error {
 	uAssert(s.shouldUpdateBinders(), "tls: updateBinders failed: shouldn't update binders")
-	s.pskExtension.PatchBuiltHello(s.uconnRef.HandshakeState.Hello)
+	// PatchBuiltHello reports success as nil or io.EOF
+	if err := s.pskExtension.PatchBuiltHello(s.uconnRef.HandshakeState.Hello); err != nil && err != io.EOF {
+		return err
+	}
+	return nil
 }
 
 func (s *sessionController) overrideExtension(extension Initializable, override func(), initializedState sessionControllerState) error {
